@@ -251,57 +251,19 @@ func vrDo(rq *vrReq, ans *vrAns) {
 		vrFill(m, rq.Vector, ans)
 	case "find":
 		// stage "base": base score == k/10 ; "adjbase": adjusted base score == k/10 (env group with CDP:ND/TD:ND, no temporal) ;
-		// "adjtemp": adjusted temporal score == k/10 (env group with CDP:ND/TD:ND, with temporal group)
+		// "adjtemp": adjusted temporal score == k/10 (env group with CDP:ND/TD:ND, with temporal group).
+		// Reachable values are tabulated once per run (first vector reaching each value); the adjusted temporal score depends
+		// on the adjusted base score only through its value, so one representative per adjusted base value suffices.
+		vrBuildTables()
+		key := fmt.Sprintf("%d/%v", rq.K, rq.NegZero)
 		found := ""
 		switch rq.Stage {
 		case "base":
-			vrEachBase(func(v string) bool {
-				m, err := NewEnvironmental().Decode(v)
-				if err == nil && vrMatch(m.Base.Score(), rq.K, rq.NegZero) {
-					found = v
-					return true
-				}
-				return false
-			})
+			found = vrBaseTab[key]
 		case "adjbase":
-			vrEachBase(func(v string) bool {
-				for _, cr := range vrReqs {
-					for _, ir := range vrReqs {
-						for _, ar := range vrReqs {
-							w := v + "/CDP:ND/TD:ND/CR:" + cr + "/IR:" + ir + "/AR:" + ar
-							m, err := NewEnvironmental().Decode(w)
-							if err == nil && vrMatch(m.Score(), rq.K, rq.NegZero) {
-								found = v + "|" + "/CR:" + cr + "/IR:" + ir + "/AR:" + ar
-								return true
-							}
-						}
-					}
-				}
-				return false
-			})
+			found = vrAdjBaseTab[key]
 		case "adjtemp":
-			vrEachBase(func(v string) bool {
-				for _, cr := range vrReqs {
-					for _, ir := range vrReqs {
-						for _, ar := range vrReqs {
-							for _, e := range vrE {
-								for _, rl := range vrRL {
-									for _, rc := range vrRC {
-										t := "/E:" + e + "/RL:" + rl + "/RC:" + rc
-										w := v + t + "/CDP:ND/TD:ND/CR:" + cr + "/IR:" + ir + "/AR:" + ar
-										m, err := NewEnvironmental().Decode(w)
-										if err == nil && vrMatch(m.Score(), rq.K, rq.NegZero) {
-											found = v + t + "|" + "/CR:" + cr + "/IR:" + ir + "/AR:" + ar
-											return true
-										}
-									}
-								}
-							}
-						}
-					}
-				}
-				return false
-			})
+			found = vrAdjTempTab[key]
 		}
 		if found == "" {
 			ans.Note = "no vector reaches this intermediate score"
@@ -316,6 +278,61 @@ func vrDo(rq *vrReq, ans *vrAns) {
 			return
 		}
 		vrFill(m, v, ans)
+	}
+}
+
+var vrBaseTab, vrAdjBaseTab, vrAdjTempTab map[string]string
+
+func vrKey(x float64) string {
+	k := int(math.Round(x * 10))
+	return fmt.Sprintf("%d/%v", k, x == 0 && math.Signbit(x))
+}
+
+func vrBuildTables() {
+	if vrBaseTab != nil {
+		return
+	}
+	vrBaseTab, vrAdjBaseTab, vrAdjTempTab = map[string]string{}, map[string]string{}, map[string]string{}
+	vrEachBase(func(v string) bool {
+		if m, err := NewEnvironmental().Decode(v); err == nil {
+			if _, ok := vrBaseTab[vrKey(m.Base.Score())]; !ok {
+				vrBaseTab[vrKey(m.Base.Score())] = v
+			}
+		}
+		for _, cr := range vrReqs {
+			for _, ir := range vrReqs {
+				for _, ar := range vrReqs {
+					req := "/CR:" + cr + "/IR:" + ir + "/AR:" + ar
+					m, err := NewEnvironmental().Decode(v + "/CDP:ND/TD:ND" + req)
+					if err != nil {
+						continue
+					}
+					k := vrKey(m.Score())
+					if _, ok := vrAdjBaseTab[k]; !ok {
+						vrAdjBaseTab[k] = v + "|" + req
+					}
+				}
+			}
+		}
+		return false
+	})
+	for _, rep := range vrAdjBaseTab {
+		parts := splitBar(rep)
+		for _, e := range vrE {
+			for _, rl := range vrRL {
+				for _, rc := range vrRC {
+					t := "/E:" + e + "/RL:" + rl + "/RC:" + rc
+					m, err := NewEnvironmental().Decode(parts[0] + t + "/CDP:ND/TD:ND" + parts[1])
+					if err != nil {
+						continue
+					}
+					k := vrKey(m.Score())
+					if _, ok := vrAdjTempTab[k]; !ok {
+						vrAdjTempTab[k] = parts[0] + t + "|" + parts[1]
+					}
+				}
+			}
+		}
 	}
 }
 
